@@ -302,6 +302,14 @@ type vWorld struct {
 	peers []*vPeer
 }
 
+// Node id layout knobs (0 = default: full-stack nodes get ids 1..nFull, thin nodes follow).
+// A harness sets them before building its world, e.g. to make the shared full-stack node a
+// non-first member of a configuration.
+var (
+	vFullStackFirstID uint32
+	vThinFirstID      uint32
+)
+
 // vFullStack builds a manager with n full-stack nodes (ids 1..n) through the real
 // NewRawManager / NewRawNodeWithID / AddNode path; up[i] says whether peer i is up at creation.
 func vFullStack(n int, up []bool, opts ...ManagerOption) *vWorld {
@@ -310,8 +318,12 @@ func vFullStack(n int, up []bool, opts ...ManagerOption) *vWorld {
 	opts = append(opts, WithGrpcDialOptions(grpc.WithTransportCredentials(insecure.NewCredentials())))
 	w.mgr = NewRawManager(opts...)
 	ids := make([]uint32, n)
+	first := vFullStackFirstID
+	if first == 0 {
+		first = 1
+	}
 	for i := 0; i < n; i++ {
-		id := uint32(i + 1)
+		id := first + uint32(i)
 		ids[i] = id
 		p := w.net.addPeer(id, up == nil || up[i])
 		w.peers = append(w.peers, p)
@@ -343,6 +355,9 @@ func vMixed(nFull, nThin int, up []bool, opts ...ManagerOption) *vWorld {
 	}
 	for i := 0; i < nThin; i++ {
 		id := uint32(nFull + i + 1)
+		if vThinFirstID != 0 {
+			id = vThinFirstID + uint32(i)
+		}
 		w.nodes = append(w.nodes, vThinNode(w.mgr, id, 1))
 		w.peers = append(w.peers, nil)
 		ids = append(ids, id)
